@@ -141,6 +141,32 @@ def same_loops(a, b):
 
 
 def loop_range_path(loop, env):
+    """Container a loop runs over once per element: `for (x : c)` or `for (i = 0; i < c.size(); ++i)` with i not
+    written in the body."""
+    if loop.get("k") == "For":
+        init, cnd, inc = loop.get("init"), loop.get("cond"), loop.get("inc")
+        if not (isinstance(init, dict) and init.get("k") == "Decl" and len(init.get("vars", [])) == 1 and cnd is not None and inc is not None):
+            return None
+        v = init["vars"][0]
+        if const_value(v.get("init")) != 0:
+            return None
+        key = "l:%s#%s" % (v["n"], v["id"])
+        ui = unwrap(inc)
+        if not (isinstance(ui, dict) and ui.get("k") == "Un" and ui.get("op") in ("pre++", "post++") and path(ui.get("e")) == (key,)):
+            return None
+        if key in ir.written_locals(loop.get("body") or {}):
+            return None
+        c = unwrap(cnd)
+        if not (isinstance(c, dict) and c.get("k") == "Bin" and c.get("op") in ("<", "!=") and path(c.get("lhs")) == (key,)):
+            return None
+        rhs = c.get("rhs")
+        sp = ir.size_call_path(rhs)
+        if sp is None and env is not None and path(rhs) is not None:
+            d = env.definition(path(rhs))
+            sp = ir.size_call_path(d) if d is not None else None
+        if sp is not None and env is not None:
+            sp = env.resolve_ref_path(sp)
+        return sp
     if loop.get("k") != "RangeFor":
         return None
     p = path(loop.get("range"))
